@@ -293,7 +293,35 @@ func (e *Eff) fresh1(v ssa.Value) bool {
 			return true
 		}
 		// load
-		switch a := x.X.(type) {
+		return e.loadFresh(x.X, 0)
+	case *ssa.Call:
+		return e.callFresh(x, 0)
+	case *ssa.BinOp:
+		return true // string concatenation etc.
+	case *ssa.Range, *ssa.Next:
+		return false
+	}
+	return false
+}
+
+// loadFresh: is the value loaded from addr fresh?
+func (e *Eff) loadFresh(addr ssa.Value, depth int) bool {
+	if depth > 6 {
+		return false
+	}
+	{
+		switch a := addr.(type) {
+		case *ssa.Phi:
+			// a pointer selected among several places (dst := &s.A / &s.B): every candidate
+			for _, ed := range a.Edges {
+				if ed == ssa.Value(a) {
+					continue
+				}
+				if !e.loadFresh(ed, depth+1) {
+					return false
+				}
+			}
+			return len(a.Edges) > 0
 		case *ssa.Alloc:
 			// local cell: union of the values stored into it
 			ok := true
@@ -322,14 +350,7 @@ func (e *Eff) fresh1(v ssa.Value) bool {
 			return e.fresh(a.X)
 		}
 		return false
-	case *ssa.Call:
-		return e.callFresh(x, 0)
-	case *ssa.BinOp:
-		return true // string concatenation etc.
-	case *ssa.Range, *ssa.Next:
-		return false
 	}
-	return false
 }
 
 func (e *Eff) cellFresh(fv *ssa.FreeVar) bool {
@@ -448,7 +469,24 @@ func paramRoot(v ssa.Value, depth int) *ssa.Parameter {
 			if fa, ok := x.X.(*ssa.FieldAddr); ok {
 				return paramRoot(fa.X, depth+1)
 			}
+			if ph, ok := x.X.(*ssa.Phi); ok {
+				return paramRoot(ph, depth+1)
+			}
 		}
+	case *ssa.Phi:
+		// all candidates derive from the same parameter
+		var root *ssa.Parameter
+		for _, ed := range x.Edges {
+			if ed == ssa.Value(x) {
+				continue
+			}
+			r := paramRoot(ed, depth+1)
+			if r == nil || (root != nil && r != root) {
+				return nil
+			}
+			root = r
+		}
+		return root
 	}
 	return nil
 }
